@@ -49,6 +49,35 @@ keys and key order are those of the input, and the deque grew by exactly the per
 Suite `shape` does the same for the single-agent path (`Transition` -> `unsqueeze(0)` / `batch_size` -> `ReplayBuffer.add`)
 with scalar, (E,), (E,1) rewards / dones (mixed across adds), vector / Dict / Tuple observations, E = 1..5: one add
 contributes exactly E rows, row e holds environment e in every leaf, tuple members sit under `tuple_obs_k` in order.
+
+Value exactness, the `dtype` option and mixed numeric types (suites `exact`, `matypes`; oracle + the same Ring model ops):
+`exact` drives ReplayBuffer / MultiStepReplayBuffer(n_step=1) / PrioritizedReplayBuffer, each constructed with the
+documented `dtype` option omitted or set to float32 / float64 / float16 / bfloat16 / int64 / uint8, through (i) raw
+TensorDicts whose fields (observation leaf, nested observation, action, reward, done) carry any of float64 / float32 /
+float16 / int64 / int32 / uint8 / bool, and (ii) `Transition` with plain-array observations of those dtypes or Dict
+observations, while reward / done / action (and Dict observation members) are handed over as Python int / float / bool,
+numpy scalars, int64 / int32 / float64 / float32 / bool arrays, the type changing from add to add and the first add
+biased to the integer types.  Values encode (id, leaf, position) and are chosen NOT to be representable in the narrower
+types (float64 with 48 mantissa bits whose obs / next_obs differ by 2^-40, odd int64 > 2^60, int32 > 2^24, uint8 >= 128,
+float32 with 20 bits).  A stored or sampled row decodes to an id only if EVERY leaf equals, as exact Python numbers, what
+was handed to add(); dtypes themselves are not compared (only values are the property's business).
+`matypes` does the same for MultiAgentReplayBuffer (it has no dtype option): per add and per agent each of state / action /
+reward / done comes as Python int / float / bool, numpy scalar, Python list, int64 / int32 / uint8 / float32 / float64
+array (`wide`: float64 that float32 cannot hold, `bigint`: 2^40 + code), single and vectorised adds, vector / Dict / Tuple
+observations; stored experiences are compared exactly, sampled rows leaf by leaf with the float32 value of what was given
+(sample() hands out float32 by design), and every sample op draws up to 10 batches until one STARTS with an integer-typed
+transition and continues with a fractional one for the same field and agent (tag `matypes-batch-starts-narrow-then-fraction`).
+Not generated: a single-agent field whose dtype changes between adds of raw / plain-array data (the storage is typed by
+the first batch by construction).
+
+clear() of every class (suite `clear`, probes `clear-probe`): ReplayBuffer, PrioritizedReplayBuffer and
+MultiStepReplayBuffer with n_step 1..4, 1-3 environments per step, phases of steps separated by clear() (after clear():
+fewer steps than the n-step window, exactly the window, a partial and a full refill).  After every phase the buffer must
+hold exactly the last min(cap, records) records that the steps since the last clear() produce (n-step: obs / action of the
+first, next_obs of the last step of a window, reward folded with gamma = 0.5 - exact), len() that count, and every
+sampled row and sampled index (4 draws for each of three batch sizes) must be one of them.  `clear_probes` re-runs the two
+analysed inputs of finding C09-clear-keeps-subclass-state (repaired in /repo 55584b2) and reports through chk.finding.
+The `exact` suite appends clear() + adds + dump + samples to half of its cases for all three classes.
 """
 from __future__ import annotations
 
@@ -537,13 +566,19 @@ def run(chk: Check) -> None:
                 "first, in the middle or last), four value styles (integer codes, +0.25 fractions, negative, > 255) and "
                 "float or int64 (> 2^31) actions, sampled and stored fields compared exactly with what was stored; "
                 "distinct = distinct (buffer, capacity, kind, layout, op list); non-trivial = at least one wrap-around "
-                "or eviction happened")
+                "or eviction happened; suites exact / matypes: the same op sequences with values that no narrower dtype "
+                "holds (float64 / int64 / int32 / uint8 / bool / float16 fields), every buffer class with its dtype option "
+                "omitted or set to one of six dtypes, and reward / done / action / observations handed over in Python and "
+                "numpy numeric types that change from add to add, stored and sampled rows compared as exact numbers")
     chk.assumptions = ["tensordict slice assignment and indexing behave as documented",
                        "ids are encoded in every field, so equality of decoded ids stands for 'fields belong together'",
                        "a malformed batch is malformed in every leaf (the key-by-key TensorDict slice assignment is not "
-                       "atomic for partly well-formed batches; those are outside the property)"]
+                       "atomic for partly well-formed batches; those are outside the property)",
+                       "single-agent storage is typed by the first batch: within one case a raw / plain-array field keeps "
+                       "its dtype (numeric types vary only where Transition normalises them); multi-agent sample() hands "
+                       "out float32, so sampled leaves are compared with the float32 value of what was stored"]
     # corpus first
-    corpus = sorted(f for f in (ROOT / "corpus" / "C09").glob("*.json") if not f.name.startswith(("reorg_", "shape_")))
+    corpus = sorted(f for f in (ROOT / "corpus" / "C09").glob("*.json") if not f.name.startswith(("reorg_", "shape_", "exact_", "matypes_")))
     cases = []
     for f in corpus:
         c = json.loads(f.read_text())
@@ -592,9 +627,15 @@ def run(chk: Check) -> None:
     handout_suite(chk)
     reorg_suite(chk)
     shape_suite(chk)
+    exact_suite(chk)
+    matypes_suite(chk)
+    clear_suite(chk)
+    clear_probes(chk)
     if chk.tier == "thorough":
         selftest(chk)
         selftest_reorg(chk)
+        selftest_types(chk)
+        selftest_clear(chk)
 
 
 def problem_kind(msg: str) -> str:
@@ -1206,6 +1247,779 @@ def selftest_reorg(chk: Check) -> None:
     chk.notes.append("self-test: split repeating environment 0 detected")
 
 
+# ----------------------------------------------------------------------------- value exactness / dtype option / mixed types
+EX_NP = {"f64": np.float64, "f32": np.float32, "f16": np.float16, "i64": np.int64, "i32": np.int32, "u8": np.uint8,
+         "bool": np.bool_}
+EX_UNIQUE = ["f64", "f32", "i64", "i32", "u8"]     # the first element of a row determines the id (ids < 256)
+EX_DTYPE_OPTS = [None, "float32", "float64", "float16", "bfloat16", "int64", "uint8"]
+EX_INT_FORMS, EX_FLOAT_FORMS = ["int", "npint"], ["float", "npfloat32"]
+
+
+def ex_values(dt: str, ids: list[int], salt: int, shape: tuple) -> np.ndarray:
+    """array (len(ids), *shape) of dtype `dt`; element `pos` of the row of transition `tid` encodes (tid, salt, pos) by
+    a value that is NOT representable in the narrower types: f64 needs 48 mantissa bits (and differs between salts only
+    by 2^-40, far below float32 resolution), f32 needs 20 bits (> float16's 11), i64 is odd and > 2^60 (> 2^53, so no
+    float type holds it), i32 is > 2^24 (odd ones are not float32 values), u8 covers 128..255, bool flips with salt."""
+    n = int(np.prod(shape)) if shape else 1
+    rows = []
+    for tid in ids:
+        row = []
+        for pos in range(n):
+            if dt == "f64":
+                v = tid + (pos + 1) * 2.0 ** -30 + salt * 2.0 ** -40
+            elif dt == "f32":
+                v = tid + 0.25 + salt * 2.0 ** -6 + pos * 2.0 ** -12
+            elif dt == "f16":
+                v = (tid % 32) + (salt % 4) * 0.25 + (pos % 4) * 2.0 ** -4
+            elif dt == "i64":
+                v = 2 ** 60 + tid * 1024 + salt * 64 + pos + 1
+            elif dt == "i32":
+                v = 2 ** 24 + 1 + tid * 512 + salt * 32 + pos
+            elif dt == "u8":
+                v = (tid * 37 + salt * 11 + pos * 5 + 128) % 256
+            else:
+                v = bool(((tid >> (pos % 8)) + salt) % 2)
+            row.append(v)
+        rows.append(row)
+    return np.array(rows, dtype=EX_NP[dt]).reshape((len(ids),) + tuple(shape))
+
+
+def _py(x) -> tuple:
+    """exact Python values of an array / tensor (floats as float, everything else as int), flattened"""
+    if isinstance(x, torch.Tensor):
+        x = x.detach().reshape(-1)
+        return tuple((x.to(torch.float64) if x.is_floating_point() else x.to(torch.int64)).tolist())
+    a = np.asarray(x).reshape(-1)
+    return tuple(float(v) for v in a.tolist()) if a.dtype.kind == "f" else tuple(int(v) for v in a.tolist())
+
+
+def ex_typed(form: str, ints: list[int], floats: list[float], vect: bool, cols: int = 0):
+    """one field of a transition handed over in one of the numeric types environments use: `int` (Python int / int64
+    array), `npint` (numpy int64 scalar / int32 array), `float` (Python float / float64 array), `npfloat32`, `bool`.
+    Integer forms carry the integer code, float forms the fractional one.  Returns (value, expected per row)."""
+    vals = ints if form in ("int", "npint", "bool") else floats
+    npdt = {"int": np.int64, "npint": np.int32 if vect else np.int64, "float": np.float64, "npfloat32": np.float32,
+            "bool": np.bool_}[form]
+    a = np.array(vals, dtype=npdt)
+    if cols:
+        a = np.repeat(a[:, None], cols, axis=1)
+    exp = [_py(a[i]) for i in range(len(vals))]
+    if vect:
+        return a, exp
+    if cols:
+        return a[0], exp
+    if form in ("int", "float", "bool"):
+        return a[0].item(), exp                       # plain Python number
+    return a[0], exp                                  # numpy scalar
+
+
+def gen_exact_case(rng: random.Random) -> dict:
+    cap = rng.choice([1, 2, 3, 4, 5, 7, 8])
+    path = rng.choice(["transition", "raw"])
+    case = {"suite": "exact", "cls": rng.choice(HANDOUT_CLASSES), "dtype_opt": rng.choice(EX_DTYPE_OPTS), "cap": cap,
+            "path": path, "seed": rng.randrange(1 << 30)}
+    all_dt = sorted(EX_NP)
+    if path == "raw":
+        # a raw TensorDict may carry any dtype in any field; the storage is typed by the first batch, so the dtype of a
+        # field is the same in every add
+        prof = {"obs_kind": rng.choice(["vector", "image", "nested", "flat"]), "obs": rng.choice(all_dt), "obs2": rng.choice(all_dt),
+                "action": rng.choice(all_dt), "reward": rng.choice(all_dt), "done": rng.choice(all_dt),
+                "reward_1d": rng.random() < 0.5}
+        if not {prof["obs"], prof["action"], prof["reward"]} & set(EX_UNIQUE):
+            prof["reward"] = rng.choice(["f64", "i64"])
+    else:
+        # through Transition, as train_off_policy does: plain-array observations keep their dtype (any of the seven);
+        # Dict observations, action, reward and done are handed over in a numeric type that changes from add to add
+        prof = {"obs_kind": rng.choice(["vector", "vector", "image", "dict"]), "obs": rng.choice(all_dt), "act_cols": rng.choice([1, 2])}
+    case["profile"] = prof
+    ops, first = [], True
+    for op in gen_ops(rng, cap, rng.randint(3, 9)):
+        if op[0] != "add":
+            ops.append(op)
+            continue
+        w = len(op) - 1
+        vect = w > 1 or rng.random() < 0.4
+        narrow_first = first and rng.random() < 0.6       # the storage is laid out by the first batch: start it narrow
+        forms = [rng.choice(EX_INT_FORMS if narrow_first else EX_INT_FORMS + EX_FLOAT_FORMS),
+                 rng.choice(["bool", "int"] if narrow_first else ["bool", "int", "float", "npfloat32"]),
+                 rng.choice(EX_INT_FORMS if narrow_first else EX_INT_FORMS + EX_FLOAT_FORMS),
+                 rng.choice(EX_INT_FORMS if narrow_first else EX_INT_FORMS + EX_FLOAT_FORMS)]
+        ops.append(["add", w, vect] + forms)
+        first = False
+    if ops and rng.random() < 0.5:
+        # life after clear() for every class: a few adds (in any numeric type), then look at the storage and sample
+        ops.append(["clear"])
+        for _ in range(rng.randint(1, 3)):
+            w = rng.randint(1, max(1, cap // 2))
+            ops.append(["add", w, w > 1 or rng.random() < 0.4, rng.choice(EX_INT_FORMS + EX_FLOAT_FORMS), rng.choice(["bool", "int", "float"]),
+                        rng.choice(EX_INT_FORMS + EX_FLOAT_FORMS), rng.choice(EX_INT_FORMS + EX_FLOAT_FORMS)])
+        ops += [["dump"], ["sample", 1], ["sample", cap], ["len"]]
+    case["ops"] = ops
+    return case
+
+
+def ex_build(case: dict, ids: list[int], vect: bool, forms: list[str]):
+    """(TensorDict for add, expected rows {leaf: values}) of one add of the transitions `ids`"""
+    from tensordict import TensorDict
+    prof, w = case["profile"], len(ids)
+    obs_shape = {"vector": (3,), "image": (1, 2, 2), "nested": (2,), "flat": (), "dict": (2,)}[prof["obs_kind"]]
+    exp = [dict() for _ in ids]
+
+    def note(key, arr):
+        for r in range(w):
+            exp[r][key] = _py(arr[r])
+    if case["path"] == "raw":
+        def leaf(dt, salt, shape):
+            a = ex_values(dt, ids, salt, shape)
+            return a, torch.from_numpy(a.copy())
+        d = {}
+        for name, salt in (("obs", 0), ("next_obs", 1)):
+            a, t = leaf(prof["obs"], salt, obs_shape)
+            if prof["obs_kind"] == "nested":
+                a2, t2 = leaf(prof["obs2"], salt + 2, (1, 3))
+                d[name] = TensorDict({"p": t, "q": t2}, batch_size=[w])
+                note(f"{name}.p", a)
+                note(f"{name}.q", a2)
+            else:
+                d[name] = t
+                note(name, a)
+        for name, salt, shape in (("action", 2, (2,)), ("reward", 3, () if prof["reward_1d"] else (1,)), ("done", 0, (1,))):
+            a, t = leaf(prof[name], salt, shape)
+            d[name] = t
+            note(name, a)
+        return TensorDict(d, batch_size=[w]), exp
+    from agilerl.components.data import Transition
+    f_reward, f_done, f_action, f_obs = forms
+    ints = [3 * t + 1 for t in ids]
+    floats = [t + 0.25 for t in ids]
+    kw = {}
+    for name, salt in (("obs", 0), ("next_obs", 1)):
+        if prof["obs_kind"] == "dict":
+            # Transition converts Dict observations to float32 (by design): float32-exact values, given as int or float
+            v = {}
+            for k, cols in (("zeta", 2), ("alpha", 3)):
+                x, e = ex_typed(f_obs, [i + 7 * salt for i in ints], [f + 0.5 * salt for f in floats], vect, cols)
+                v[k] = x
+                for r in range(w):
+                    exp[r][f"{name}.{k}"] = tuple(float(q) for q in e[r])
+            kw[name] = v
+        else:
+            a = ex_values(prof["obs"], ids, salt, obs_shape)
+            note(name, a)
+            kw[name] = a if vect else a[0]
+    for name, form, cols, ii, ff in (("reward", f_reward, 0, ints, floats), ("done", f_done, 0, [t % 2 for t in ids], [float(t % 2) for t in ids]),
+                                     ("action", f_action, prof["act_cols"], [5 * t + 2 for t in ids], [t + 0.75 for t in ids])):
+        if name == "action" and not vect and prof["act_cols"] == 1 and form in ("int", "float"):
+            x, e = ex_typed(form, ii, ff, False, 0)             # a discrete / scalar action as a plain Python number
+        else:
+            x, e = ex_typed(form, ii, ff, vect, cols)
+        kw[name] = x
+        for r in range(w):
+            exp[r][name] = tuple(float(q) for q in e[r])         # Transition hands these over as float32: exact here
+    t = Transition(**kw)
+    if not vect:
+        t = t.unsqueeze(0)
+    td = t.to_tensordict()
+    td.batch_size = [w]
+    return td, exp
+
+
+def _ex_row_key(d: dict) -> tuple:
+    return tuple(sorted(d.items()))
+
+
+def _ex_td_row(row) -> dict:
+    out = {}
+    for key in row.keys(include_nested=True, leaves_only=True):
+        name = key if isinstance(key, str) else ".".join(key)
+        if name not in ("idxs", "weights"):
+            out[name] = _py(row[key])
+    return out
+
+
+def run_exact(case: dict):
+    """same contract as run_impl_single; a stored / sampled row decodes to an id only if EVERY leaf holds exactly the
+    values that were handed to add() for that id"""
+    from agilerl.components import replay_buffer as rb
+    cap, cls_name = case["cap"], case["cls"]
+    torch.manual_seed(case["seed"])
+    kw = {} if case["dtype_opt"] is None else {"dtype": getattr(torch, case["dtype_opt"])}
+    if cls_name == "ReplayBuffer":
+        buf = rb.ReplayBuffer(max_size=cap, **kw)
+    elif cls_name == "MultiStepReplayBuffer":
+        buf = rb.MultiStepReplayBuffer(max_size=cap, n_step=1, gamma=0.5, **kw)
+    else:
+        buf = rb.PrioritizedReplayBuffer(max_size=cap, alpha=0.5, **kw)
+    where = f"{cls_name}(max_size={cap}" + ("" if case["dtype_opt"] is None else f", dtype=torch.{case['dtype_opt']}") + ")"
+    obs_lines, model_lines, problems, tags = ["ok"], [f"ring new {cap}"], [], [f"exact-path-{case['path']}", f"exact-{cls_name}",
+                                                                              f"exact-dtype-opt-{case['dtype_opt']}"]
+    known: dict = {}          # row key -> id
+    added: dict = {}          # id -> expected row
+    since_clear: list[int] = []
+    nid = 1
+
+    def decode(td, n, what):
+        rows = []
+        for j in range(n):
+            got = _ex_td_row(td[j])
+            tid = known.get(_ex_row_key(got))
+            if tid is None:
+                # report against the added transition that shares the most leaves with it
+                best = max(added, key=lambda t: sum(added[t].get(k) == v for k, v in got.items()), default=None)
+                if best is None or set(added[best]) != set(got):
+                    problems.append(f"values: {where} {what} row {j} has leaves {sorted(got)}")
+                else:
+                    k = next(k for k in sorted(got) if got[k] != added[best][k])
+                    problems.append(f"values: {where} {what} row {j} is none of the added transitions: leaf {k} holds "
+                                    f"{list(got[k])[:4]!r}; transition {best} (all other {len(got) - sum(got[q] != added[best][q] for q in got)}"
+                                    f" leaves equal) was added with {k} = {list(added[best][k])[:4]!r}")
+                rows.append("MIXED")
+            else:
+                rows.append(str(tid))
+        return rows
+    for op in case["ops"]:
+        if op[0] == "add":
+            w, vect, forms = op[1], op[2], op[3:]
+            ids = list(range(nid, nid + w))
+            nid += w
+            td, exp = ex_build(case, ids, vect, forms)
+            for tid, e in zip(ids, exp):
+                added[tid] = e
+                known[_ex_row_key(e)] = tid
+            before = buf._cursor
+            buf.add(td)
+            since_clear += ids
+            model_lines.append("ring add " + " ".join(map(str, ids)))
+            obs_lines.append("ok")
+            if case["path"] == "transition":
+                tags += [f"exact-reward-{forms[0]}", f"exact-done-{forms[1]}", f"exact-action-{forms[2]}"]
+            if before + w >= cap:
+                tags.append("wrap-across" if before + w > cap else "wrap-exact")
+        elif op[0] == "sample":
+            if len(buf) == 0:
+                continue
+            k = min(op[1], len(buf))
+            s = buf.sample(k) if cls_name == "PrioritizedReplayBuffer" else buf.sample(k, return_idx=True)
+            rows = decode(s, s.shape[0], f"sample({k})")
+            idx = [int(i) for i in s["idxs"].reshape(-1).tolist()]
+            if cls_name != "PrioritizedReplayBuffer":
+                model_lines.append(f"ring sample {len(idx)} " + " ".join(map(str, idx)))
+                obs_lines.append(" ".join(rows))
+                if len(set(rows)) != len(rows):
+                    problems.append(f"duplicate in one uniform batch: idx={idx} rows={rows}")
+            expect = set(map(str, since_clear[-cap:]))
+            if len(rows) != k:
+                problems.append(f"sample({k}) returned {len(rows)} rows")
+            if not set(rows) - {"MIXED"} <= expect:
+                problems.append(f"sample returned rows not stored: {sorted(set(rows) - expect)}")
+        elif op[0] == "len":
+            model_lines.append("ring len")
+            obs_lines.append(str(len(buf)))
+            if len(buf) != min(cap, len(since_clear)):
+                problems.append(f"len={len(buf)} expected {min(cap, len(since_clear))}")
+        elif op[0] == "dump":
+            n = len(buf)
+            rows = decode(buf.storage[:n], n, "storage") if n else []
+            model_lines.append("ring dump")
+            obs_lines.append(" ".join(rows))
+            if "MIXED" not in rows and sorted(rows) != sorted(map(str, since_clear[-cap:])):
+                problems.append(f"contents {sorted(rows)} != last-N reference {sorted(map(str, since_clear[-cap:]))}")
+        elif op[0] == "clear":
+            buf.clear()
+            since_clear = []
+            model_lines.append("ring clear")
+            obs_lines.append("ok")
+    model_lines.append("ring counter")
+    obs_lines.append(str(buf.counter))
+    prof = case["profile"]
+    tags += [f"exact-obs-{prof['obs_kind']}", f"exact-obs-dtype-{prof['obs']}"]
+    if case["path"] == "raw":
+        tags += [f"exact-{f}-dtype-{prof[f]}" for f in ("action", "reward", "done")]
+    return obs_lines, model_lines, problems, tags
+
+
+def exact_one(chk: Check, case: dict):
+    """(diff index or None, oracle problems, tags, impl lines, model lines)"""
+    try:
+        impl, model_ops, problems, tags = run_exact(case)
+    except Exception as e:      # every generated sequence is legal
+        return None, [f"implementation raised {type(e).__name__}: {str(e)[:200]}"], [], [], []
+    model_out = chk.driver.run(["reset"] + model_ops)[1:]
+    diff = next((i for i, (a, b) in enumerate(zip(impl, model_out)) if a != b), None)
+    return diff, problems, tags, impl, model_out
+
+
+def _typed_suite(chk: Check, name: str, prefix: str, gen, one, n_cases: int, correspondence: str) -> None:
+    cases = [json.loads(f.read_text()) for f in sorted((ROOT / "corpus" / "C09").glob(prefix + "*.json"))]
+    cases += [gen(chk.rng) for _ in range(n_cases)]
+    bad = 0
+    for case in cases:
+        case = case.get("case", case)
+        diff, problems, tags, impl, model_out = one(chk, case)
+        chk.case([name, case], nontrivial=any(t in ("wrap-across", "wrap-exact", "ma-evict") for t in tags),
+                 sample={k: v for k, v in case.items() if k != "ops"} | {"ops": case["ops"][:5]}, tags=tags + [name])
+        if diff is None and not problems:
+            continue
+        bad += 1
+        cat0 = problem_kind(problems[0]) if problems else None
+
+        def still_fails(sub):
+            d, p, *_ = one(chk, {**case, "ops": sub})
+            return any(problem_kind(q) == cat0 for q in p) if problems else d is not None
+        small = {**case, "ops": ddmin(case["ops"], still_fails)}
+        d2, p2, _, impl2, model2 = one(chk, small)
+        replay = {"suite": name, "case": small, "impl": impl2, "model": model2, "oracle_problems": p2 or problems,
+                  "correspondence": correspondence}
+        if problems:
+            chk.violation(next((q for q in p2 if problem_kind(q) == cat0), (p2 or problems)[0]), replay)
+        else:
+            chk.violation(f"implementation and Ring model disagree at line {diff}: impl={impl[diff]!r} model={model_out[diff]!r}; "
+                          f"property oracle holds on this case and its shrinks", replay, no_input=True)
+    chk.suite(name, len(cases), bad)
+
+
+def exact_suite(chk: Check) -> None:
+    _typed_suite(chk, "exact", "exact_", gen_exact_case, exact_one, 70 if chk.tier == "quick" else 600,
+                 "harness/c09.py run_exact vs Model/Ring.lean")
+
+
+# ----------------------------------------------------------------------------- multi-agent: mixed numeric types per field
+MT_FORMS = {"reward": ["int", "npint", "float", "npfloat32", "bigint", "wide", "listint", "listfloat"],
+            "action": ["int", "npint", "float", "npfloat32", "bigint", "wide"],
+            "done": ["bool", "int", "float"],
+            "state": ["int", "npint", "float", "npfloat32", "wide", "u8"]}
+MT_NARROW = {"int", "npint", "bigint", "bool", "u8", "listint"}          # forms whose dtype cannot hold a fraction
+
+
+def mt_value(field: str, form: str, ai: int, ids: list[int], nxt: bool = False):
+    """batched values of one field for agent number ai in the numeric type `form`; (array or list, per-row Python
+    values).  code = 4 * id + ai; integer forms carry 3 * code + 1, float forms code + 0.25 (`wide`: + 2^-30, a float64
+    that float32 cannot hold), `bigint` 2^40 + code (int64 beyond float32 and int32), `u8` code mod 256."""
+    code = [4 * t + ai for t in ids]
+    if field == "done":
+        vals = [(t + ai) % 2 for t in ids]
+        a = np.array(vals, dtype={"bool": np.bool_, "int": np.int64, "float": np.float64}[form])
+        return a, [_py(a[i]) for i in range(len(ids))]
+    off = 0.5 if nxt else 0.0
+    if form in ("int", "npint", "listint"):
+        vals, dt = [3 * c + 1 + (7 if nxt else 0) for c in code], (np.int64 if form != "npint" else np.int32)
+    elif form == "bigint":
+        vals, dt = [2 ** 40 + c for c in code], np.int64
+    elif form == "u8":
+        vals, dt = [(c + (7 if nxt else 0)) % 256 for c in code], np.uint8
+    elif form == "wide":
+        vals, dt = [c + 0.25 + off + 2.0 ** -30 for c in code], np.float64
+    else:
+        vals, dt = [c + 0.25 + off for c in code], (np.float32 if form == "npfloat32" else np.float64)
+    a = np.array(vals, dtype=dt)
+    cols = {"reward": 0, "action": 2, "state": 3}[field]
+    if cols:
+        a = np.repeat(a[:, None], cols, axis=1)
+    exp = [_py(a[i]) for i in range(len(ids))]
+    if form.startswith("list"):
+        return a.tolist(), exp                    # a Python list of Python numbers (the maybe_to_array path)
+    return a, exp
+
+
+def gen_matypes_case(rng: random.Random) -> dict:
+    cap = rng.choice([2, 3, 4, 5, 7, 8])
+    kind = rng.choice(["vector", "vector", "dict", "tuple"])
+    ops = []
+    for op in gen_ops(rng, cap, rng.randint(4, 10)):
+        if op[0] == "clear":
+            continue                                            # the multi-agent buffer has no clear()
+        if op[0] != "add":
+            ops.append(op)
+            continue
+        w = len(op) - 1
+        vect = w > 1 or rng.random() < 0.4
+        narrow = rng.random() < 0.5                             # about half of the transitions in integer types
+        forms = {}
+        for f in ("state", "action", "reward", "done"):
+            pool = [x for x in MT_FORMS[f] if (x in MT_NARROW) == narrow or rng.random() < 0.25]
+            pool = [x for x in pool if vect or not x.startswith("list")] or ["float"]
+            forms[f] = [rng.choice(pool) for _ in AGENTS] if rng.random() < 0.5 else [rng.choice(pool)] * len(AGENTS)
+        ops.append(["add", w, vect, forms])
+    return {"suite": "matypes", "cap": cap, "kind": kind, "ops": ops, "seed": rng.randrange(1 << 30)}
+
+
+def mt_args(case: dict, ids: list[int], vect: bool, forms: dict):
+    """(the five field dicts for save_to_memory, per id the expected {(field, agent, leaf): values})"""
+    kind = case["kind"]
+    exp = [dict() for _ in ids]
+    args = []
+    for f in FIELDS:
+        d = {}
+        for ai, ag in enumerate(AGENTS):
+            base = "state" if f in ("state", "next_state") else f
+            form = forms[base][ai]
+            v, e = mt_value(base, form, ai, ids, nxt=f == "next_state")
+            if base == "state" and kind != "vector":
+                v2, e2 = mt_value(base, form, (ai + 1) % 4, ids, nxt=f == "next_state")      # a second, different member
+                members = {"p": (v, e), "q": (v2, e2)} if kind == "dict" else {0: (v, e), 1: (v2, e2)}
+                for mk, (_, me) in members.items():
+                    for r in range(len(ids)):
+                        exp[r][(f, ag, str(mk))] = me[r]
+                val = {mk: (mv if vect else mv[0]) for mk, (mv, _) in members.items()}
+                d[ag] = val if kind == "dict" else tuple(val[i] for i in (0, 1))
+            else:
+                for r in range(len(ids)):
+                    exp[r][(f, ag, "")] = e[r]
+                d[ag] = v if vect else (v[0] if isinstance(v, np.ndarray) else v[0])
+                if not vect and base in ("reward", "done") and form in ("int", "float", "bool"):
+                    d[ag] = v[0].item()                         # plain Python number, as PettingZoo environments return
+        args.append(d)
+    return args, exp
+
+
+def _mt_leaves(x) -> dict:
+    if isinstance(x, dict):
+        return {str(k): v for k, v in x.items()}
+    if isinstance(x, tuple):
+        return {str(i): v for i, v in enumerate(x)}
+    return {"": x}
+
+
+def run_matypes(case: dict):
+    """same contract as run_impl_ma.  Stored experiences must hold exactly the values given; a sampled row must hold,
+    in every leaf of every field of every agent, the float32 value of what was given for one stored transition
+    (sample() hands out float32 by design; flag fields as 0 / 1)."""
+    from agilerl.components.multi_agent_replay_buffer import MultiAgentReplayBuffer
+    cap = case["cap"]
+    random.seed(case["seed"])
+    buf = MultiAgentReplayBuffer(memory_size=cap, field_names=list(FIELDS), agent_ids=list(AGENTS))
+    obs_lines, model_lines, problems, tags = ["ok"], [f"ring dnew {cap}"], [], [f"matypes-obs-{case['kind']}"]
+    hist: list[int] = []
+    added, known, known32, narrow_of = {}, {}, {}, {}
+    nid = 1
+
+    def f32(vals):
+        return tuple(float(np.float32(v)) for v in vals)
+    for op in case["ops"]:
+        if op[0] == "add":
+            w, vect, forms = op[1], op[2], op[3]
+            ids = list(range(nid, nid + w))
+            nid += w
+            args, exp = mt_args(case, ids, vect, forms)
+            for tid, e in zip(ids, exp):
+                added[tid] = e
+                known[_ex_row_key(e)] = tid
+                known32[_ex_row_key({k: f32(v) for k, v in e.items()})] = tid
+                narrow_of[tid] = {f: [x in MT_NARROW for x in forms[f]] for f in forms}
+            buf.save_to_memory(*args, is_vectorised=vect)
+            hist += ids
+            model_lines.append("ring dadd " + " ".join(map(str, ids)))
+            obs_lines.append("ok")
+            tags.append("ma-vect" if vect else "ma-single")
+            tags += [f"matypes-{f}-{x}" for f in forms for x in set(forms[f])]
+            if len(hist) > cap:
+                tags.append("ma-evict")
+        elif op[0] == "sample":
+            k = min(op[1], len(buf))
+            if k == 0:
+                continue
+            expect = set(hist[-cap:])
+            # several draws: the order of a batch is random, and a batch that STARTS with an integer-typed transition
+            # and goes on with a fractional one is the interesting one
+            seen_narrow_first = False
+            for draw in range(10):
+                batch = buf.sample(k)
+                rows = []
+                for j in range(k):
+                    got = {}
+                    for fi, f in enumerate(FIELDS):
+                        for ag in AGENTS:
+                            for lk, x in _mt_leaves(batch[fi][ag]).items():
+                                got[(f, ag, lk)] = _py(x[j].to(torch.float64))
+                    tid = known32.get(_ex_row_key(got))
+                    rows.append(tid)
+                    if tid is None and len(problems) < 3:
+                        best = max(expect, key=lambda t: sum(f32(added[t].get(q, ())) == v for q, v in got.items()))
+                        q = next((q for q in sorted(got) if f32(added[best].get(q, ())) != got[q]), None)
+                        problems.append(f"MA values: sample({k}) row {j} is none of the stored transitions: field {q[0]} of {q[1]}"
+                                        f"{' member ' + q[2] if q[2] else ''} holds {list(got[q])!r}; transition {best} (closest) was "
+                                        f"added with {list(added[best].get(q, ()))!r}; ids of the batch so far {rows}")
+                if None not in rows and (len(set(rows)) != k or not set(rows) <= expect):
+                    problems.append(f"MA sample({k}) -> {rows}; stored {sorted(expect)}")
+                if rows[0] is not None and k > 1:
+                    first = narrow_of[rows[0]]
+                    if any(first[f][ai] and any(r is not None and not narrow_of[r][f][ai] for r in rows[1:])
+                           for f in first for ai in range(len(AGENTS))):
+                        seen_narrow_first = True
+                if problems or (draw >= 2 and (seen_narrow_first or k == 1)):
+                    break
+            tags.append("ma-sample")
+            if seen_narrow_first:
+                tags.append("matypes-batch-starts-narrow-then-fraction")
+        elif op[0] == "len":
+            model_lines.append("ring dlen")
+            obs_lines.append(str(len(buf)))
+            if len(buf) != min(cap, len(hist)):
+                problems.append(f"MA len={len(buf)} expected {min(cap, len(hist))}")
+        elif op[0] == "dump":
+            rows = []
+            for e in buf.memory:
+                got = {}
+                for f in FIELDS:
+                    for ag in AGENTS:
+                        for lk, x in _mt_leaves(getattr(e, f)[ag]).items():
+                            got[(f, ag, lk)] = _py(x)
+                tid = known.get(_ex_row_key(got))
+                rows.append("MIXED" if tid is None else str(tid))
+            model_lines.append("ring ddump")
+            obs_lines.append(" ".join(rows))
+            if rows != list(map(str, hist[-cap:])):
+                problems.append(f"MA contents {rows} != last-N {hist[-cap:]}")
+    model_lines.append("ring dcounter")
+    obs_lines.append(str(buf.counter))
+    return obs_lines, model_lines, problems, tags
+
+
+def matypes_one(chk: Check, case: dict):
+    try:
+        impl, model_ops, problems, tags = run_matypes(case)
+    except Exception as e:
+        return None, [f"implementation raised {type(e).__name__}: {str(e)[:200]}"], [], [], []
+    model_out = chk.driver.run(["reset"] + model_ops)[1:]
+    diff = next((i for i, (a, b) in enumerate(zip(impl, model_out)) if a != b), None)
+    return diff, problems, tags, impl, model_out
+
+
+def matypes_suite(chk: Check) -> None:
+    _typed_suite(chk, "matypes", "matypes_", gen_matypes_case, matypes_one, 50 if chk.tier == "quick" else 400,
+                 "harness/c09.py run_matypes vs Model/Ring.lean")
+
+
+def selftest_types(chk: Check) -> None:
+    """seeded faults for the value / numeric-type dimensions: each must be reported by the oracle of its suite"""
+    from common import InfraError
+    from agilerl.components import data as dmod
+    from agilerl.components import multi_agent_replay_buffer as mb
+    from agilerl.components import replay_buffer as rb
+    add_ops = [["add", 1, False, "int", "bool", "int", "int"], ["add", 2, True, "float", "float", "float", "float"],
+               ["dump"], ["sample", 2]]
+    raw = {"suite": "exact", "cls": "ReplayBuffer", "dtype_opt": None, "cap": 4, "path": "raw", "seed": 1, "ops": add_ops,
+           "profile": {"obs_kind": "vector", "obs": "f64", "obs2": "u8", "action": "i64", "reward": "f32", "done": "bool",
+                       "reward_1d": False}}
+    via_t = {"suite": "exact", "cls": "ReplayBuffer", "dtype_opt": None, "cap": 4, "path": "transition", "seed": 1,
+             "ops": add_ops, "profile": {"obs_kind": "vector", "obs": "f64", "act_cols": 1}}
+    orig_init, orig_add, orig_tt = rb.ReplayBuffer._init, rb.ReplayBuffer.add, dmod.to_torch_tensor
+    orig_stack = mb.MultiAgentReplayBuffer.stack_transitions
+
+    def init_cast(self, data):                       # "honours" the dtype option: floating leaves stored in self.dtype
+        orig_init(self, data)
+        self._storage = self._storage.apply(lambda t: t.to(self.dtype) if t.is_floating_point() else t)
+
+    def add_via_float(self, data):                   # every leaf passes through float32 on the way in
+        return orig_add(self, data.apply(lambda t: t.float().to(t.dtype)))
+
+    def tt_keep(data, dtype=torch.float32):          # Transition keeps the numeric type it is given
+        return torch.as_tensor(data)
+
+    def stack_first(transitions):                    # batch typed by its first row
+        if isinstance(transitions[0], (dict, tuple)):
+            return orig_stack(transitions)
+        first = np.asarray(transitions[0])
+        out = np.empty((len(transitions), *first.shape), dtype=first.dtype)
+        for i, t in enumerate(transitions):
+            out[i] = t
+        return np.expand_dims(out, axis=1) if out.ndim == 1 else out
+    ma = {"suite": "matypes", "cap": 6, "kind": "vector", "seed": 5,
+          "ops": [["add", 1, False, {"state": ["float"] * 3, "action": ["float"] * 3, "reward": ["int"] * 3, "done": ["bool"] * 3}],
+                  ["add", 3, True, {"state": ["float"] * 3, "action": ["float"] * 3, "reward": ["float"] * 3, "done": ["float"] * 3}],
+                  ["add", 2, True, {"state": ["float"] * 3, "action": ["float"] * 3, "reward": ["npint"] * 3, "done": ["int"] * 3}],
+                  ["dump"], ["sample", 6], ["sample", 3]]}
+    seeded = [("storage cast to the dtype option", rb.ReplayBuffer, "_init", init_cast, exact_one, raw),
+              ("add through float32", rb.ReplayBuffer, "add", add_via_float, exact_one, raw),
+              ("Transition keeps the given numeric type", dmod, "to_torch_tensor", tt_keep, exact_one, via_t),
+              ("sampled batch typed by its first row", mb.MultiAgentReplayBuffer, "stack_transitions", staticmethod(stack_first),
+               matypes_one, ma)]
+    for what, owner, attr, fault, one, case in seeded:
+        if one(chk, case)[1]:
+            raise InfraError(f"C09 self-test: the case for '{what}' fails on the unpatched implementation")
+        orig = owner.__dict__[attr] if isinstance(owner, type) else getattr(owner, attr)
+        setattr(owner, attr, fault)
+        try:
+            problems = one(chk, case)[1]
+        finally:
+            setattr(owner, attr, orig)
+        if not problems:
+            raise InfraError(f"C09 self-test: seeded fault '{what}' was not noticed")
+        chk.notes.append(f"self-test: {what} detected ({problems[0][:90]})")
+
+
+# ----------------------------------------------------------------------------- clear() of every single-agent class
+CLEAR_GAMMA = 0.5          # dyadic: n-step returns of integer rewards are exact in float32
+
+
+def clear_step_td(ids: list[int]):
+    """one environment step of len(ids) environments; every leaf encodes the id, done = 0 (episode ends are C10's subject)"""
+    from agilerl.components.data import Transition
+    a = np.array(ids, dtype=np.float32)
+    t = Transition(obs=np.repeat(a[:, None], 3, axis=1), action=np.repeat(a[:, None], 2, axis=1), reward=a.copy(),
+                   next_obs=np.repeat(a[:, None] + 0.5, 3, axis=1), done=np.zeros(len(ids), dtype=np.float32))
+    td = t.to_tensordict()
+    td.batch_size = [len(ids)]
+    return td
+
+
+def clear_decode(td, n: int) -> list:
+    """per row (obs id, action id, reward, next_obs id) or "MIXED" """
+    rows = []
+    for j in range(n):
+        r = td[j]
+        o, a, x = (torch.unique(r[k].reshape(-1).to(torch.float64)).tolist() for k in ("obs", "action", "next_obs"))
+        rew, d = r["reward"].reshape(-1).tolist(), r["done"].reshape(-1).tolist()
+        if len(o) != 1 or len(a) != 1 or len(x) != 1 or len(rew) != 1 or d != [0.0]:
+            rows.append("MIXED")
+        else:
+            rows.append((o[0], a[0], float(rew[0]), x[0] - 0.5))
+    return rows
+
+
+def clear_one(case: dict) -> list[str]:
+    try:
+        return _clear_one(case)
+    except Exception as e:
+        return [f"implementation raised {type(e).__name__}: {str(e)[:200]}"]
+
+
+def _clear_one(case: dict) -> list[str]:
+    """phases of environment steps separated by clear(); after every phase the buffer must hold exactly the last
+    min(cap, records) records that the steps SINCE the last clear() produce (n-step: windows of n consecutive steps of one
+    environment, obs / action of the first, next_obs of the last, reward folded with gamma), and every sampled row /
+    sampled index must be one of them"""
+    from agilerl.components import replay_buffer as rb
+    cls_name, cap, n, envs = case["cls"], case["cap"], case.get("n_step", 1), case["envs"]
+    torch.manual_seed(case["seed"])
+    if cls_name == "ReplayBuffer":
+        buf, n = rb.ReplayBuffer(max_size=cap), 1
+    elif cls_name == "MultiStepReplayBuffer":
+        buf = rb.MultiStepReplayBuffer(max_size=cap, n_step=n, gamma=CLEAR_GAMMA)
+    else:
+        buf, n = rb.PrioritizedReplayBuffer(max_size=cap, alpha=0.5), 1
+    where = f"{cls_name}(max_size={cap}" + (f", n_step={n}" if cls_name == "MultiStepReplayBuffer" else "") + ")"
+    problems, nid = [], 1
+    for pno, steps in enumerate(case["phases"]):
+        if pno:
+            buf.clear()
+            if len(buf) != 0:
+                problems.append(f"clear: {where} len after clear() is {len(buf)}")
+        window, records = [], []
+        for _ in range(steps):
+            ids = list(range(nid, nid + envs))
+            nid += envs
+            buf.add(clear_step_td(ids))
+            window = (window + [ids])[-n:]
+            if len(window) == n:
+                for e in range(envs):
+                    records.append((float(window[0][e]), float(window[0][e]),
+                                    float(sum(CLEAR_GAMMA ** k * window[k][e] for k in range(n))), float(window[-1][e])))
+        want = records[-cap:]
+        what = f"{where} after {'clear() and ' if pno else ''}{steps} step(s) of {envs} environment(s)" + \
+            (f" (phase {pno}, ids from {nid - steps * envs})" if pno else "")
+        if len(buf) != len(want):
+            problems.append(f"clear: {what}: len={len(buf)}, expected {len(want)}")
+            break
+        if not want:
+            continue
+        stored = clear_decode(buf.storage[:len(buf)], len(buf))
+        if sorted(map(str, stored)) != sorted(map(str, want)):
+            extra = [r for r in stored if r not in want][:3]
+            problems.append(f"clear: {what}: storage holds records (obs id, action id, reward, next_obs id) {extra} that the steps "
+                            f"since the last clear() do not produce; expected {want[-3:]}")
+            break
+        for k in sorted({1, len(want), max(1, len(want) // 2)}):
+            for _ in range(4):
+                s = buf.sample(k) if cls_name == "PrioritizedReplayBuffer" else buf.sample(k, return_idx=True)
+                rows = clear_decode(s, s.shape[0])
+                idx = [int(i) for i in s["idxs"].reshape(-1).tolist()]
+                if len(rows) != k or any(r not in want for r in rows) or any(not 0 <= i < len(want) for i in idx) or \
+                        (cls_name != "PrioritizedReplayBuffer" and len(set(idx)) != k):
+                    problems.append(f"clear: {what}: sample({k}) returned idxs {idx} rows {rows[:4]}; the buffer holds {len(want)} "
+                                    f"record(s) {want[-3:]}")
+                    break
+            if problems:
+                break
+        if problems:
+            break
+    return problems
+
+
+def gen_clear_case(rng: random.Random, i: int) -> dict:
+    cls_name = HANDOUT_CLASSES[i % 3]
+    envs = rng.choice([1, 1, 2, 3])
+    cap = rng.choice([c for c in (1, 2, 3, 4, 6, 8, 9) if c >= envs])     # a vectorised add is at most the capacity
+    n = rng.choice([1, 2, 2, 3, 3, 4]) if cls_name == "MultiStepReplayBuffer" else 1
+    phases = [rng.randint(0, 2 * cap // envs + n)]
+    for _ in range(rng.randint(1, 3)):
+        # after clear(): fewer steps than the window, exactly the window, fewer records than before, or a refill
+        phases.append(rng.choice([rng.randint(1, n), n, rng.randint(n, n + max(1, cap // envs)), rng.randint(1, 2 * cap // envs + n)]))
+    return {"suite": "clear", "cls": cls_name, "cap": cap, "n_step": n, "envs": envs, "phases": phases, "seed": rng.randrange(1 << 30)}
+
+
+def clear_suite(chk: Check) -> None:
+    n_cases = 45 if chk.tier == "quick" else 360
+    cases = [json.loads(f.read_text()) for f in sorted((ROOT / "corpus" / "C09").glob("clear_*.json"))]
+    cases += [gen_clear_case(chk.rng, i) for i in range(n_cases)]
+    bad = 0
+    for case in cases:
+        case = case.get("case", case)
+        problems = clear_one(case)
+        chk.case(["clear", case], nontrivial=len(case["phases"]) > 1 and case["phases"][0] > 0,
+                 sample={k: v for k, v in case.items() if k != "seed"},
+                 tags=["clear-suite", f"clear-{case['cls']}", f"clear-n-step-{case.get('n_step', 1)}", f"clear-envs-{case['envs']}"])
+        if problems:
+            bad += 1
+            small = dict(case)
+            for cand in ([case["phases"][0]] + [p] for p in case["phases"][1:]):       # one clear() is enough?
+                if clear_one({**case, "phases": cand}):
+                    small["phases"] = cand
+                    break
+            p2 = clear_one(small) or problems
+            chk.violation(p2[0], {"suite": "clear", "case": small, "oracle_problems": p2})
+    chk.suite("clear", len(cases), bad)
+
+
+CLEAR_PROBES = {
+    # the two inputs of finding C09-clear-keeps-subclass-state (repaired in 55584b2)
+    "per": {"suite": "clear", "cls": "PrioritizedReplayBuffer", "cap": 8, "n_step": 1, "envs": 1, "phases": [8, 1], "seed": 0},
+    "nstep": {"suite": "clear", "cls": "MultiStepReplayBuffer", "cap": 8, "n_step": 3, "envs": 1, "phases": [2, 3], "seed": 0},
+}
+
+
+def clear_probes(chk: Check) -> None:
+    """regression probes on exactly the analysed inputs: prioritised buffer cap 8, add 8, clear, add 1, sample;
+    n-step buffer n_step=3, add 1, 2, clear, add 3 more -> one record, made of the three post-clear transitions only"""
+    for name, case in CLEAR_PROBES.items():
+        problems = clear_one(case)
+        chk.case(["clear-probe", name], nontrivial=True, tags=["clear-probe"])
+        if problems:
+            chk.finding("C09-clear-keeps-subclass-state", problems[0], {"suite": "clear", "case": case, "oracle_problems": problems})
+    chk.suite("clear-probe", len(CLEAR_PROBES), 0)
+
+
+def selftest_clear(chk: Check) -> None:
+    """seeded fault: subclasses whose clear() resets only the storage (the inherited ReplayBuffer.clear) must be noticed
+    by both regression probes"""
+    from common import InfraError
+    from agilerl.components import replay_buffer as rb
+    saved = {c: c.__dict__.get("clear") for c in (rb.MultiStepReplayBuffer, rb.PrioritizedReplayBuffer)}
+    for c in saved:
+        c.clear = rb.ReplayBuffer.clear
+    try:
+        missed = [k for k, case in CLEAR_PROBES.items() if not clear_one(case)]
+    finally:
+        for c, f in saved.items():
+            if f is None:
+                del c.clear
+            else:
+                c.clear = f
+    if missed:
+        raise InfraError(f"C09 self-test: clear() that keeps the subclass state was not noticed by probe(s) {missed}")
+    chk.notes.append("self-test: clear() keeping priority trees / the pending n-step window detected")
+
+
 def renumber(ops):
     """after shrinking, ids must still be 1,2,3,… in order of addition"""
     out, nid = [], 1
@@ -1269,6 +2083,22 @@ def replay(chk: Check, path: str) -> int:
         if problems:
             print(f"VIOLATION property=C09 replay={path}")
         return 1 if problems else 0
+    if c.get("suite") == "clear":
+        problems = clear_one(c["case"])
+        print(json.dumps({"oracle_problems": problems}, indent=1))
+        if problems:
+            print(f"VIOLATION property=C09 replay={path}")
+        return 1 if problems else 0
+    if c.get("suite") in ("exact", "matypes"):
+        diff, problems, _, impl, model = (exact_one if c["suite"] == "exact" else matypes_one)(chk, c["case"])
+        print(json.dumps({"diff_at": diff, "oracle_problems": problems, "impl": impl, "model": model}, indent=1))
+        if problems:
+            print(f"VIOLATION property=C09 replay={path}")
+            return 1
+        if diff is not None:
+            print(f"VIOLATION property=C09 replay={path} no-failing-input-found")
+            return 1
+        return 0
     if c.get("suite") == "handout":
         problem = handout_one(c["buffer"], c["cap"], c["added"], c["batch"], c["torch_seed"], c["add_width"], c["more_adds"])
         print(json.dumps({"problem": problem}))
